@@ -9,14 +9,15 @@ LEVEL = "proof"
 MANIFEST = {
     "technique": "Coq proof over a hand-written Gallina model of aac.AudioSpecificConfig / aac.ADTSHeader codecs (bit lists) "
                  "+ complete enumeration of the finite domain on both sides + differential correspondence (extracted OCaml vs Go)",
-    "level_text": "Theorems (coq/c18/C18Theorems.v): DecodeAudioSpecificConfig(Encode(c)) = c for every canonical configuration "
+    "level_text": "Theorems (coq/c18/C18Theorems.v, 16, all closed under the global context): DecodeAudioSpecificConfig(Encode(c)) = c for every canonical configuration "
                   "(object types 2/5/29, 16 channel configurations, every frequency 0..2^24-1 incl. the 13 table values; general "
                   "bit-level proof) and again by complete enumeration of the table part inside Coq; the two frequency tables are "
                   "mutually inverse; DecodeADTSHeader(Encode(h)) = (h, 0) for all profiles 1..4, 16 frequency indices, 8 channel "
                   "configurations, payload lengths 0..8184, fullness 0..2047 (general proof) and with <= 187 junk bytes without an "
                   "earlier sync word the reported offset is the junk length (induction on the junk, incl. ff runs and the sync2 "
-                  "re-use path); the AAC sample entry path (SetAACDescriptor -> esds -> DecSpecificInfo) for the descriptor shapes "
-                  "CreateEsdsBox produces. On the implementation the complete domain is enumerated on every run "
+                  "re-use path); SetAACDescriptor -> encoded mp4a entry -> DecodeBox -> esds -> DecSpecificInfo -> "
+                  "DecodeAudioSpecificConfig returns the configuration built (entry round trip general in the DecConfig bytes); "
+                  "two uint16 accessors/fields are exact only below 65536 and refuted above (known findings F1, F2). On the implementation the complete domain is enumerated on every run "
                   "(exhaustive: true): all table configurations, all 16 x 8 x 8185 ADTS headers, every junk length 0..187.",
     "level_note": "Trusted: Coq kernel, extraction (ExtrOcamlBasic), the OCaml/Go glue, the bit-list reading of bits.Reader/bits.Writer "
                   "(tied to the code only by the correspondence run). Explicit 24-bit frequencies are covered by the general proof and "
@@ -58,7 +59,9 @@ def run(ctx):
         "model: coq/c18/C18Model.v is a hand transcription of aac/aac.go (Encode, DecodeAudioSpecificConfig, getFrequency, the two "
         "frequency maps as association lists) and aac/adts.go (NewADTSHeader, Encode, DecodeADTSHeader incl. the 188-iteration sync "
         "search); bits.Reader/bits.Writer are read as operations on bit lists (EOF = fewer bits than requested)",
-        "model of the sample-entry path: coq/c18/C18EntryModel.v (CreateEsdsBox descriptor shapes, mp4a entry fields) where present",
+        "model of the sample-entry path: coq/c18/C18EntryModel.v (SetAACDescriptor, mp4a entry and esds encoders, the decoder path for "
+        "one esds child with DecoderConfig+DecSpecificInfo+SLConfig incl. every size/tag check on that path; anything else is "
+        "EUnmodelled and skipped (counted) by the correspondence)",
     ]
     ctx.assumptions += ["the underlying io.Writer never fails; the io.Reader is a bytes.Reader (EOF is the only error)",
                         "Go int is 64 bit (uint(freq) wrap written as mod 2^64)"]
@@ -72,7 +75,8 @@ def run(ctx):
         raise common.CheckError("harness corr failed: " + e[-1000:])
     lines = [l for l in cases.splitlines() if l]
     res = run_model_parallel(model, lines)
-    mism = [l for l in res if not l.startswith("OK ")]
+    skipped = [l for l in res if l.startswith("SKIP ")]
+    mism = [l for l in res if not l.startswith("OK ") and not l.startswith("SKIP ")]
     if len(res) != len(lines):
         raise common.CheckError("model driver answered %d lines for %d cases" % (len(res), len(lines)))
     kinds = {}
@@ -88,11 +92,14 @@ def run(ctx):
     ctx.notes["correspondence"] = {
         "cases": len(lines), "mismatches": len(mism), "distinct_case_lines": distinct, "kinds": kinds,
         "adts_headers_in_range_lines": hx_headers,
+        "entry_cases_outside_modelled_decoder_path_skipped": len(skipped),
         "complete_domains": ["AudioSpecificConfig: 3 object types x 16 channel configurations x 13 x 13 table frequencies",
                              "DecodeAudioSpecificConfig: every 1-byte input" + (", every 2-byte input" if thorough else ""),
                              "ADTS: %s x 16 frequency indices x 8 channel configurations x payload lengths 0..8184"
                              % ("profiles 1..4 x 3 fullness values" if thorough else "profile AAC-LC, fullness 0x7ff"),
-                             "DecodeADTSHeader: every junk length 0..200 x 8 patterns"],
+                             "DecodeADTSHeader: every junk length 0..200 x 8 patterns",
+                             "SetAACDescriptor: 6 object types (3 supported) x 13 table frequencies + explicit values; "
+                             "DecodeBox on each produced entry, truncations and byte mutations"],
     }
     ctx.cov["samples"] += [l[:300] for l in lines[5000:5002]] + [l[:300] for l in lines if l.startswith("HX\t")][:1] \
         + [l[:300] for l in lines if l.startswith("HD\t")][700:702] + [l[:300] for l in lines[-2:]]
